@@ -120,6 +120,10 @@ class Driver:
     def cleanup(self, sys_):
         pass
 
+    def terminal(self, outs, sys_=None):
+        """True if a history with these outcomes must not be extended (e.g. a step did not terminate)"""
+        return False
+
 
 def run_history(driver, hist):
     sys_ = driver.fresh()
@@ -179,7 +183,8 @@ def explore(driver, acc, depth, roots=None, max_states=None, oracle_on="all"):
                 if max_states is not None and len(seen) >= max_states:
                     capped = True
                     continue
-                frontier.append(nh)
+                if not driver.terminal(outs, sys_):
+                    frontier.append(nh)
         del recorded[hist]
     acc.dims.setdefault("max_depth_completed", 0)
     acc.dims["max_depth_completed"] = max(acc.dims["max_depth_completed"], maxd)
